@@ -23,6 +23,7 @@ type Violation struct {
 	Key    string      `json:"key"`    // stable identity used by the known-findings file
 	What   string      `json:"what"`   // one line for humans
 	Replay interface{} `json:"replay"` // everything needed to re-execute the single case
+	Size   int         `json:"size,omitempty"`
 }
 
 // Result is what one worker (or an unsharded check) produced.
@@ -41,6 +42,7 @@ type Result struct {
 	distinct map[uint64]struct{}
 	states   map[uint64]struct{}
 	violKeys map[string]bool
+	violSize map[string]int
 }
 
 // NewResult makes an empty result.
@@ -121,6 +123,33 @@ func (r *Result) Violate(key, what string, replay interface{}) {
 	}
 }
 
+// ViolateMin is Violate that keeps, per key, the counterexample with the smallest size.
+func (r *Result) ViolateMin(key, what string, replay interface{}, size int) {
+	r.mu.Lock()
+	defer r.mu.Unlock()
+	r.ViolCount++
+	if r.violSize == nil {
+		r.violSize = map[string]int{}
+	}
+	if r.violKeys[key] {
+		if size >= r.violSize[key] {
+			return
+		}
+		for i := range r.Violations {
+			if r.Violations[i].Key == key {
+				r.Violations[i] = Violation{Key: key, What: what, Replay: replay, Size: size}
+				r.violSize[key] = size
+			}
+		}
+		return
+	}
+	r.violKeys[key] = true
+	r.violSize[key] = size
+	if len(r.Violations) < 200 {
+		r.Violations = append(r.Violations, Violation{Key: key, What: what, Replay: replay, Size: size})
+	}
+}
+
 // NDistinct returns the number of distinct outcomes.
 func (r *Result) NDistinct() int { r.mu.Lock(); defer r.mu.Unlock(); return len(r.distinct) }
 
@@ -143,6 +172,12 @@ func (r *Result) Merge(o *Result) {
 		if !r.violKeys[v.Key] {
 			r.violKeys[v.Key] = true
 			r.Violations = append(r.Violations, v)
+			continue
+		}
+		for i := range r.Violations {
+			if r.Violations[i].Key == v.Key && v.Size > 0 && v.Size < r.Violations[i].Size {
+				r.Violations[i] = v
+			}
 		}
 	}
 	r.ViolCount += o.ViolCount
